@@ -668,7 +668,10 @@ pub mod verif_hooks {
   }
 
   pub fn run_one_device(d: &mut dyn ScriptedDriver, layout: Layout) -> Result<(), String> {
-    do_remapping_loop_one_device(&mut Adapter { d }, layout, false)
+    run_one_device_verbose(d, layout, false)
+  }
+  pub fn run_one_device_verbose(d: &mut dyn ScriptedDriver, layout: Layout, verbose: bool) -> Result<(), String> {
+    do_remapping_loop_one_device(&mut Adapter { d }, layout, verbose)
   }
 
   thread_local! {
